@@ -20,13 +20,14 @@ theorem transition_inv {α : Type} {full : Bool} {g : Ghost} {d : Int} (s : Stre
     beyond a GOAWAY) and whatever the outcome -/
 theorem recvData_inv {full : Bool} {g : Ghost} {s : Streams} (h : Inv full g s) (id : Nat) (payload : Bytes)
     (eos : Bool) (padLen : Option Nat) : Inv full g (s.recvData id payload eos padLen).1 := by
-  have hp := fun k => recvRecvData_post h k payload eos padLen
   unfold Streams.recvData
   zeta_let
-  generalize (payload.length + (match padLen with | some p => p + 1 | none => 0)) = flowLen at hp ⊢
+  generalize hfl : payload.length + _ = flowLen
+  have hp : ∀ k, DataPost full g (usizeAsU32 flowLen) (s.recvRecvData k payload eos padLen) := by
+    intro k; rw [← hfl]; exact recvRecvData_post h k payload eos padLen
   cases hfk : s.store.findKey? id with
   | none =>
-    dsimp only
+    try dsimp only
     split
     · have := ignoreData_inv h (usizeAsU32 flowLen)
       split <;> (rename_i heq; rw [heq] at this; exact this)
@@ -35,9 +36,9 @@ theorem recvData_inv {full : Bool} {g : Ghost} {s : Streams} (h : Inv full g s) 
         split <;> (rename_i heq; rw [heq] at this; exact this)
       · exact h
   | some k =>
-    dsimp only
+    try dsimp only
     apply transition_inv
-    dsimp only
+    try dsimp only
     have hp := hp k
     cases hr : s.recvRecvData k payload eos padLen with
     | mk s1 res1 =>
@@ -45,13 +46,10 @@ theorem recvData_inv {full : Bool} {g : Ghost} {s : Streams} (h : Inv full g s) 
       cases res1 with
       | ok u =>
         have h1 : Inv full g s1 := hp.1 notReset_ok
+        -- not END_STREAM: the frame counts against the DATA frame budget
         dsimp only
-        split
-        · -- not END_STREAM: the frame counts against the DATA frame budget
-          split
-          · exact h1.of_ext ((setCounts_ext _ _).trans (resetOnRecvStreamErr_ext _ _ _))
-          · exact h1.of_ext ((setCounts_ext _ _).trans (resetOnRecvStreamErr_ext _ _ _))
-        · exact h1.of_ext (resetOnRecvStreamErr_ext _ _ _)
+        inv_auto
+        all_goals (exfalso; simp_all [PErr.libraryGoAwayData])
       | error e =>
         dsimp only
         cases e with
@@ -67,9 +65,191 @@ theorem recvData_inv {full : Bool} {g : Ghost} {s : Streams} (h : Inv full g s) 
           exact h2.of_ext (resetOnRecvStreamErr_ext _ _ _)
         | goAway d r i =>
           have h1 : Inv full g s1 := hp.1 (fun _ _ _ hc => nomatch hc)
-          exact h1.of_ext (resetOnRecvStreamErr_ext _ _ _)
+          inv_auto
+          all_goals (exfalso; simp_all)
         | io k m =>
           have h1 : Inv full g s1 := hp.1 (fun _ _ _ hc => nomatch hc)
-          exact h1.of_ext (resetOnRecvStreamErr_ext _ _ _)
+          inv_auto
+          all_goals (exfalso; simp_all)
+
+/-- `Inner::buffer_pending` -/
+theorem bufferPending_inv {full : Bool} {g : Ghost} (n : Nat) {s : Streams} (h : Inv full g s) (w : Writer) :
+    Inv full g (bufferPending n s w).1 := by
+  unfold Streams.bufferPending
+  have h1 := recvBufferPending_inv h w
+  cases hc : s.recvBufferPending w with
+  | mk s1 r =>
+    rw [hc] at h1
+    obtain ⟨w1, st⟩ := r
+    cases st with
+    | codecFull => exact h1
+    | complete => exact h1.of_ext (prioBufferPending_ext _ _ _)
+
+/-- **`Streams::poll_complete`** (every WINDOW_UPDATE and DATA frame goes out through here) -/
+theorem pollComplete_inv {full : Bool} {g : Ghost} (n : Nat) {s : Streams} (h : Inv full g s) (w : Writer) (io : Tio)
+    (t : String) : Inv full g (pollComplete n s w io t).1 := by
+  induction n generalizing s w io with
+  | zero => unfold pollComplete; exact h.of_ext (panic_ext _ _)
+  | succ n ih =>
+    unfold pollComplete
+    split
+    · next w1 io1 _ =>
+      have h1 := bufferPending_inv (n + 1) h w1
+      cases hb : bufferPending (n + 1) s w1 with
+      | mk s1 r =>
+        rw [hb] at h1
+        obtain ⟨w2, st⟩ := r
+        dsimp only
+        cases st with
+        | codecFull => exact ih h1 _ _
+        | complete =>
+          dsimp only
+          split
+          · next w3 io3 _ =>
+            have h2 : Inv full g ({ s1 with actions := { s1.actions with task := some t } } : Streams) :=
+              h1.of_ext (setTask_ext _ _)
+            have h3 := h2.of_ext (reclaimFrame_ext _ w3)
+            cases hrf : ({ s1 with actions := { s1.actions with task := some t } } : Streams).reclaimFrame w3 with
+            | mk s4 r4 =>
+              rw [hrf] at h3
+              obtain ⟨w4, b⟩ := r4
+              dsimp only
+              split
+              · exact h3
+              · exact ih h3 _ _
+          · exact h1.of_ext (setTask_ext _ _)
+    · exact h
+
+/-- `Streams::apply_local_settings(frame)` (the peer acknowledged our SETTINGS) -/
+theorem applyLocalSettingsFrame_inv {full : Bool} {g : Ghost} {s : Streams} (h : Inv full g s) (vals : List (Nat × Nat))
+    (hv : ∀ t, (vals.find? (·.1 = 4)).map (·.2) = some t → t ≤ 2147483647) :
+    Inv false (g.afterSettings ((vals.find? (·.1 = 4)).map (·.2))) (s.applyLocalSettingsFrame vals).1 ∧
+    ((s.applyLocalSettingsFrame vals).2 = .ok () →
+      Inv full (g.afterSettings ((vals.find? (·.1 = 4)).map (·.2))) (s.applyLocalSettingsFrame vals).1) := by
+  unfold Streams.applyLocalSettingsFrame
+  exact applyLocalSettings_inv h _ _ hv
+
+/-- `OpaqueStreamRef::release_capacity` -/
+theorem refReleaseCapacity_inv {full : Bool} {g : Ghost} {s : Streams} (h : Inv full g s) (id cap : Nat) :
+    Inv full g (s.refReleaseCapacity id cap).1 := by
+  unfold Streams.refReleaseCapacity; exact releaseCapacity_inv h id cap true
+
+/-- `OpaqueStreamRef::clear_recv_buffer` (`Drop for RecvStream`): the handle is gone, what is buffered
+    goes back to the connection window -/
+theorem refClearRecvBuffer_inv {full : Bool} {g : Ghost} {s : Streams} (h : Inv full g s) (id : Nat) :
+    Inv full g (s.refClearRecvBuffer id) := by
+  unfold Streams.refClearRecvBuffer
+  have h1 : Inv full g (s.modStream id fun st => { st with isRecv := false }) :=
+    h.of_ext (modStream_ext _ _ _ fun x _ => ⟨rfl, rfl, rfl, fun h => h, fun hc => by cases hc⟩)
+  have hg := get?_modStream s id (fun st => { st with isRecv := false }) (fun _ => rfl)
+  generalize (s.modStream id fun st => { st with isRecv := false }) = s1 at h1 hg ⊢
+  refine clearRecvBuffer_inv h1 id true fun _ x hx => ?_
+  rw [hg] at hx
+  cases hs : s.store.get? id with
+  | none => simp [hs] at hx
+  | some y =>
+    simp only [hs, Option.map_some, Option.some.injEq] at hx
+    subst hx
+    exact .inr (.inl rfl)
+
+theorem foldl_ext (f : Streams → Nat → Streams) (hf : ∀ s p, Ext s (f s p)) (l : List Nat) (s : Streams) :
+    Ext s (l.foldl f s) := by
+  induction l generalizing s with
+  | nil => exact Ext.refl _
+  | cons p l ih => exact (hf s p).trans (ih _)
+
+/-- after `Send::schedule_implicit_reset` the stream is closed (if it is there) -/
+theorem scheduleImplicitReset_closed (s : Streams) (id : Nat) (r : Reason) (hk : KeysOK s.store)
+    (hlt : id < s.store.nextKey) {x' : Stream} (hx' : x' ∈ (s.scheduleImplicitReset id r).store.slab)
+    (hkx : x'.key = id) : x'.state.isClosed = true := by
+  unfold Streams.scheduleImplicitReset at hx'
+  split at hx'
+  · next hc =>
+    have hg := get?_of_mem hk hx'
+    rw [hkx] at hg
+    rw [stream_eq_of_get? hg] at hc
+    exact hc
+  · have e1 : Ext s (s.modStream id fun st => { st with state := st.state.setScheduledReset r }) :=
+      modStream_ext _ _ _ fun x _ => setState_same x _ fun _ => rfl
+    have hg1 := get?_modStream s id (fun st => { st with state := st.state.setScheduledReset r }) (fun _ => rfl)
+    have hk1 := e1.keys hk
+    have hlt1 : id < (s.modStream id fun st => { st with state := st.state.setScheduledReset r }).store.nextKey :=
+      Nat.lt_of_lt_of_le hlt e1.nk
+    generalize (s.modStream id fun st => { st with state := st.state.setScheduledReset r }) = s1 at hx' hg1 hk1 hlt1
+    have e2 : Ext s1 ((s1.reclaimReservedCapacity id).scheduleSend id) :=
+      (reclaimReservedCapacity_ext _ _).trans (scheduleSend_ext _ _)
+    refine Ext.closed_of_mem hk1 e2 (k := id) ?_ hlt1 hx' hkx
+    intro y hy
+    rw [hg1] at hy
+    cases hs : s.store.get? id with
+    | none => simp [hs] at hy
+    | some x =>
+      simp only [hs, Option.map_some, Option.some.injEq] at hy
+      subst hy; rfl
+
+/-- after `maybe_cancel`, a stream without handles is closed -/
+theorem maybeCancel_closed (s : Streams) (id : Nat) (hk : KeysOK s.store) (hlt : id < s.store.nextKey)
+    {x' : Stream} (hx' : x' ∈ (s.maybeCancel id).store.slab) (hkx : x'.key = id)
+    (hrc : (((s.maybeCancel id).stream id).refCount == 0) = true) : x'.state.isClosed = true := by
+  unfold Streams.maybeCancel at hx' hrc
+  dsimp only at hx' hrc
+  split at hx'
+  · -- cancelled now
+    have e1 := scheduleImplicitReset_ext s id
+      (if (s.counts.isServer && (s.stream id).state.isSendClosed && (s.stream id).state.isRecvStreaming) = true then NO_ERROR
+        else CANCEL)
+    have hk1 := e1.keys hk
+    have hlt1 := Nat.lt_of_lt_of_le hlt e1.nk
+    refine Ext.closed_of_mem hk1 (enqueueResetExpiration_ext _ id) (k := id) ?_ hlt1 hx' hkx
+    intro y hy
+    exact scheduleImplicitReset_closed s id _ hk hlt (get?_mem hy).1 (get?_mem hy).2
+  · next hnc =>
+    rw [if_neg hnc] at hrc
+    have hg := get?_of_mem hk hx'
+    rw [hkx] at hg
+    rw [stream_eq_of_get? hg] at hnc hrc
+    unfold Stream.isCanceledInterest at hnc
+    cases hcl : x'.state.isClosed with
+    | true => rfl
+    | false => simp [hrc, hcl] at hnc
+
+/-- **`drop_stream_ref`** (a `StreamRef`/`OpaqueStreamRef` is dropped): when it was the last one,
+    everything the stream still holds goes back to the connection window -/
+theorem dropStreamRef_inv {full : Bool} {g : Ghost} {s : Streams} (h : Inv full g s) (id : Nat)
+    (hlt : id < s.store.nextKey) : Inv full g (s.dropStreamRef id) := by
+  unfold Streams.dropStreamRef
+  abs_let s1 h1 : Inv full g s1 ∧ id < s1.store.nextKey
+  · exact ⟨h.of_ext (setRefs_ext _ _), hlt⟩
+  abs_let s2 h2 : Inv full g s2 ∧ id < s2.store.nextKey
+  · by_cases hc : (s1.stream id).refCount > 0
+    · rw [if_pos hc]; exact h1
+    · rw [if_neg hc]; exact ⟨h1.1.of_ext (panic_ext _ _), by rw [panic_store]; exact h1.2⟩
+  abs_let s3 h3 : Inv full g s3 ∧ id < s3.store.nextKey
+  · have e := modStream_ext s2 id (fun st => { st with refCount := st.refCount - 1 })
+      (fun x _ => ⟨rfl, rfl, rfl, fun h => h, fun h => h⟩)
+    exact ⟨h2.1.of_ext e, Nat.lt_of_lt_of_le h2.2 e.nk⟩
+  zeta_let
+  abs_let s4 h4 : Inv full g s4 ∧ id < s4.store.nextKey
+  · by_cases hc : ((s3.stream id).refCount == 0 && (s3.stream id).isClosed) = true
+    · rw [if_pos hc]; exact ⟨h3.1.of_ext (notifyTask_ext _), Nat.lt_of_lt_of_le h3.2 (notifyTask_ext _).nk⟩
+    · rw [if_neg hc]; exact h3
+  apply transition_inv
+  dsimp only
+  have h5 : Inv full g (s4.maybeCancel id) := h4.1.of_ext (maybeCancel_ext _ _)
+  have hcl := fun x' hx' hkx hrc => maybeCancel_closed s4 id h4.1.keys h4.2 (x' := x') hx' hkx hrc
+  generalize s4.maybeCancel id = s5 at h5 hcl ⊢
+  split
+  · next hrc =>
+    have h6 : Inv full g (s5.releaseClosedCapacity id) :=
+      releaseClosedCapacity_inv h5 id fun _ x hx => .inl (hcl x (get?_mem hx).1 (get?_mem hx).2 hrc)
+    generalize s5.releaseClosedCapacity id = s6 at h6 ⊢
+    dsimp only
+    refine h6.of_ext ?_
+    refine (modStream_ext s6 id (fun st => { st with pendingPushPromises := [] })
+      (fun x _ => ⟨rfl, rfl, rfl, fun h => h, fun h => h⟩)).trans ?_
+    apply foldl_ext
+    intro s p
+    ext_auto
+  · exact h5
 
 end H2V.Lemmas.ConnRecvP
